@@ -22,6 +22,7 @@ func init() {
 	reg("H_C05_mismatch", H_C05_mismatch)
 	reg("H_C05_actions", H_C05_actions)
 	reg("H_C05_replace", H_C05_replace)
+	reg("H_C05_sequence", H_C05_sequence)
 }
 
 // transfer attributes after some pre-actions: source coin A uusdc, destination coin D uusdc with 0 < D <= A, and the orbiter
@@ -280,4 +281,125 @@ func H_C05_replace() {
 	verif.Assert(string(r.OriginalMessage) == string(m.OriginalMessage) && string(r.OriginalAttestation) == string(m.OriginalAttestation), "replace-carries-message-and-attestation")
 	verif.Assert(string(r.NewDestinationCaller) == string(m.NewDestinationCaller) && string(r.NewMintRecipient) == string(m.NewMintRecipient), "replace-carries-new-caller-and-recipient")
 	verif.Assert(len(w.CCTP.reqs) == 0 && len(w.L.sends) == 0, "replace-moves-no-funds")
+}
+
+
+// H_C05_sequence: the request of a transfer is a function of that transfer's payload alone. A first transfer over any
+// route with every optional parameter set is followed, on the same keeper and controllers, by a second transfer whose
+// optional parameters are set or left empty independently; the second request must carry exactly the second payload
+// (nothing remembered from the first: controllers, parsers and message objects are long-lived singletons).
+func H_C05_sequence() {
+	w := NewWorld(false)
+	w.Hyp.tokenKnown, w.Hyp.originDenom = true, nativeDenom
+	b32 := func(x byte) []byte {
+		b := make([]byte, 32)
+		for i := range b {
+			b[i] = x
+		}
+		return b
+	}
+	send := func(f *core.Forwarding, A, D math.Int) error {
+		ta, err := core.NewTransferAttributes(core.PROTOCOL_IBC, "channel-0", nativeDenom, A)
+		must(err)
+		ta.SetDestinationAmount(D)
+		w.L.Set(core.ModuleAddress, nativeDenom, D)
+		return w.K.Forwarder().HandlePacket(w.Ctx, &types.ForwardingPacket{TransferAttributes: ta, Forwarding: f})
+	}
+	// ---- first transfer: everything optional is present ------------------------------------------------------------------
+	first := verif.Choose("first-route", 3)
+	{
+		var f *core.Forwarding
+		switch first {
+		case 0:
+			f = &core.Forwarding{ProtocolId: core.PROTOCOL_CCTP}
+			must(f.SetAttributes(&fwdtypes.CCTPAttributes{DestinationDomain: 3, MintRecipient: b32(0xa1), DestinationCaller: b32(0xa2)}))
+		case 1:
+			f = &core.Forwarding{ProtocolId: core.PROTOCOL_HYPERLANE}
+			must(f.SetAttributes(&fwdtypes.HypAttributes{TokenId: b32(0xb1), DestinationDomain: 4, Recipient: b32(0xb2), CustomHookId: b32(0xee),
+				GasLimit: math.NewInt(77), MaxFee: sdk.Coin{Denom: "uusdc", Amount: math.NewInt(55)}, CustomHookMetadata: "0x00ff"}))
+		default:
+			f = &core.Forwarding{ProtocolId: core.PROTOCOL_INTERNAL}
+			must(f.SetAttributes(&fwdtypes.InternalAttributes{Recipient: user2.String()}))
+		}
+		err := send(f, math.NewInt(1000), math.NewInt(900))
+		verif.Assert(err == nil, "first-transfer-forwarded")
+		if err != nil {
+			return
+		}
+		verif.Cover("first-forwarded")
+	}
+	n1c, n1h, n1i := len(w.CCTP.reqs), len(w.Hyp.reqs), len(w.Int.reqs)
+	// ---- second transfer ----------------------------------------------------------------------------------------------
+	D := verif.BigInt("D")
+	verif.Assume(D.IsPositive() && D.LT(math.NewIntWithDecimal(1, 30)))
+	switch verif.Choose("second-route", 3) {
+	case 0:
+		attr := &fwdtypes.CCTPAttributes{DestinationDomain: 6, MintRecipient: b32(0xc1)}
+		if verif.Bool("caller-given") {
+			attr.DestinationCaller = b32(0xc2)
+		}
+		f := &core.Forwarding{ProtocolId: core.PROTOCOL_CCTP}
+		must(f.SetAttributes(attr))
+		err := send(f, D, D)
+		verif.Assert(err == nil, "second-transfer-forwarded")
+		verif.Assert(len(w.CCTP.reqs) == n1c+1 && len(w.Hyp.reqs) == n1h && len(w.Int.reqs) == n1i, "exactly-one-more-request-on-the-cctp-route")
+		if err != nil || len(w.CCTP.reqs) != n1c+1 {
+			return
+		}
+		r := w.CCTP.reqs[n1c]
+		verif.Assert(r.domain == attr.DestinationDomain, "cctp-destination-domain")
+		verif.Assert(string(r.recipient) == string(attr.MintRecipient), "cctp-mint-recipient")
+		verif.Assert(r.withCaller == (len(attr.DestinationCaller) > 0), "cctp-with-caller-iff-caller-given")
+		verif.Assert(string(r.caller) == string(attr.DestinationCaller), "cctp-destination-caller")
+		verif.Assert(r.burnToken == nativeDenom && r.amount.Equal(D) && r.from == core.ModuleAddress.String(), "cctp-coin-and-sender")
+	case 1:
+		attr := &fwdtypes.HypAttributes{TokenId: b32(0xd1), DestinationDomain: 8, Recipient: b32(0xd2), GasLimit: math.ZeroInt(), MaxFee: sdk.Coin{Denom: "uusdc", Amount: math.ZeroInt()}}
+		if verif.Bool("hook-given") {
+			attr.CustomHookId = b32(0xd3)
+		}
+		if verif.Bool("metadata-given") {
+			attr.CustomHookMetadata = "0x01"
+		}
+		if verif.Bool("gas-given") {
+			attr.GasLimit = math.NewInt(5)
+		}
+		if verif.Bool("max-fee-given") {
+			attr.MaxFee = sdk.Coin{Denom: "uusdc", Amount: math.NewInt(9)}
+		}
+		f := &core.Forwarding{ProtocolId: core.PROTOCOL_HYPERLANE}
+		must(f.SetAttributes(attr))
+		err := send(f, D, D)
+		verif.Assert(err == nil, "second-transfer-forwarded")
+		verif.Assert(len(w.Hyp.reqs) == n1h+1 && len(w.CCTP.reqs) == n1c && len(w.Int.reqs) == n1i, "exactly-one-more-request-on-the-hyperlane-route")
+		if err != nil || len(w.Hyp.reqs) != n1h+1 {
+			return
+		}
+		r := w.Hyp.reqs[n1h]
+		verif.Assert(r.Sender == core.ModuleAddress.String(), "hyperlane-sender-is-the-orbiter-account")
+		verif.Assert(string(r.TokenId[:]) == string(attr.TokenId), "hyperlane-token")
+		verif.Assert(r.DestinationDomain == attr.DestinationDomain, "hyperlane-domain")
+		verif.Assert(string(r.Recipient[:]) == string(attr.Recipient), "hyperlane-recipient")
+		verif.Assert(r.Amount.Equal(D), "hyperlane-amount-is-the-post-action-amount")
+		verif.Assert((r.CustomHookId == nil) == (len(attr.CustomHookId) == 0), "hyperlane-hook-nil-iff-empty")
+		if r.CustomHookId != nil {
+			verif.Assert(string(r.CustomHookId[:]) == string(attr.CustomHookId), "hyperlane-hook")
+		}
+		verif.Assert(r.GasLimit.Equal(attr.GasLimit), "hyperlane-gas-limit")
+		verif.Assert(r.MaxFee.Denom == attr.MaxFee.Denom && r.MaxFee.Amount.Equal(attr.MaxFee.Amount), "hyperlane-max-fee")
+		verif.Assert(r.CustomHookMetadata == attr.CustomHookMetadata, "hyperlane-hook-metadata")
+	default:
+		rcpt := []string{user1.String(), feeR1.String()}[verif.Choose("recipient", 2)]
+		f := &core.Forwarding{ProtocolId: core.PROTOCOL_INTERNAL}
+		must(f.SetAttributes(&fwdtypes.InternalAttributes{Recipient: rcpt}))
+		err := send(f, D, D)
+		verif.Assert(err == nil, "second-transfer-forwarded")
+		verif.Assert(len(w.Int.reqs) == n1i+1 && len(w.CCTP.reqs) == n1c && len(w.Hyp.reqs) == n1h, "exactly-one-more-request-on-the-internal-route")
+		if err != nil || len(w.Int.reqs) != n1i+1 {
+			return
+		}
+		r := w.Int.reqs[n1i]
+		verif.Assert(r.FromAddress == core.ModuleAddress.String() && r.ToAddress == rcpt, "internal-sender-and-recipient")
+		verif.Assert(len(r.Amount) == 1 && r.Amount[0].Denom == nativeDenom && r.Amount[0].Amount.Equal(D), "internal-coin-is-the-post-action-coin")
+	}
+	verif.Cover("second-forwarded")
 }
